@@ -53,6 +53,11 @@ const F72: &[(&str, &str)] = &[
     ("/COVR/@72-other-code-word", "/COVR/TEXT"),
     ("/COV/@72", "/COV/COVER PAYMENT"),
     ("/COVER/@72", "/COVER/PAYMENT"),
+    // other spellings of the case (not judged against the word list; the types must agree on them)
+    ("/retn/@72", "/retn/ac04"),
+    ("/Retn/@72-mixed-case", "/Retn/AC04"),
+    ("/Rejt/@72-mixed-case", "/Rejt/AC01"),
+    ("/retn/@72-mid-line", "//see /retn/ advice"),
     // the word on one line only of several: any line counts, not all of them
     ("/COV/@72-second-line", "/INS/BANK ONE\n/COV/COVER PAYMENT"),
     ("/COVER/@72-first-of-two-lines", "/COVER/PAYMENT\n/INS/BANK ONE"),
@@ -418,6 +423,19 @@ pub fn run(cfg: &Config) -> i32 {
         }
         for (i1, x) in firsts.iter().enumerate() {
             for y in firsts.iter().skip(i1 + 1) {
+                // the plugin's reject / return verdict for the same words, user reference and validation flag is
+                // the same for the two institution transfers (MT103 has no flag handling and an stp method)
+                if x.0 != "103" && y.0 != "103" && ((x.1.method == "reject") != (y.1.method == "reject") || (x.1.method == "return") != (y.1.method == "return")) {
+                    let at = format!("{}+{}+{}", F72[a].0, MUR[b].0, F119[d].0);
+                    v(
+                        l,
+                        &format!("MT{}-vs-MT{}", x.0, y.0),
+                        "cross-type-method-disagreement",
+                        &at,
+                        format!("the same code words ({at}) give plugin method {} for MT{} but {} for MT{}", x.1.method, x.0, y.1.method, y.0),
+                        &x.2,
+                    );
+                }
                 if (x.1.reject, x.1.ret) != (y.1.reject, y.1.ret) {
                     let at = F72[a].0.to_string();
                     v(
